@@ -24,6 +24,8 @@ pub enum Act {
     ReqJ,
     /// one task awaiting select over two shell requests
     ReqS,
+    /// self-aborting command: task B request -> event, task A request -> own AbortHandle
+    ReqA,
     Respond(usize),
     /// the shell drops the k-th outstanding one-shot request unresolved (hosts that hold typed
     /// requests); on the Core host followed by one no-op event = "one further core call"
@@ -92,8 +94,13 @@ pub enum OneKind {
     Join,
     /// member of a select over two requests whose task is still waiting
     Sel,
-    /// member of a select whose task has finished or gone; the shell still holds the request
+    /// request whose task has finished or gone (the losing member of a select, the victim of a
+    /// self-abort); the shell still holds it
     SelOrphan,
+    /// self-aborting command, task B (request -> event)
+    AbB,
+    /// self-aborting command, task A (request -> abort the whole command)
+    AbA,
 }
 
 /// The reference: logical state as a function of the history alone.
@@ -153,10 +160,13 @@ impl Ref {
                 v.push(Act::ReqL);
             }
         }
-        if self.oneshots.len() + 2 <= b.max_oneshots
-            && !self.oneshots.iter().any(|k| matches!(k, OneKind::Sel | OneKind::SelOrphan))
-        {
-            v.push(Act::ReqS);
+        if self.oneshots.len() + 2 <= b.max_oneshots {
+            if !self.oneshots.iter().any(|k| matches!(k, OneKind::Sel | OneKind::SelOrphan)) {
+                v.push(Act::ReqS);
+            }
+            if !self.oneshots.iter().any(|k| matches!(k, OneKind::AbA | OneKind::AbB)) {
+                v.push(Act::ReqA);
+            }
         }
         for k in 0..self.oneshots.len() {
             v.push(Act::Respond(k));
@@ -218,8 +228,20 @@ impl Ref {
                 self.oneshots.push(OneKind::Sel);
                 self.oneshots.push(OneKind::Sel);
             }
+            Act::ReqA => {
+                self.oneshots.push(OneKind::AbB);
+                self.oneshots.push(OneKind::AbA);
+            }
             Act::Respond(k) => match self.oneshots.remove(k) {
-                OneKind::Cmd | OneKind::Legacy => sat(&mut self.view.got),
+                OneKind::Cmd | OneKind::Legacy | OneKind::AbB => sat(&mut self.view.got),
+                OneKind::AbA => {
+                    // no output; the whole command is aborted, task B with it
+                    for o in self.oneshots.iter_mut() {
+                        if *o == OneKind::AbB {
+                            *o = OneKind::SelOrphan;
+                        }
+                    }
+                }
                 OneKind::Join => {
                     // the child's event, then the parent's
                     sat(&mut self.view.got);
@@ -237,7 +259,7 @@ impl Ref {
             },
             Act::Drop(k) => match self.oneshots.remove(k) {
                 // the task is cancelled, nothing is delivered
-                OneKind::Cmd | OneKind::SelOrphan | OneKind::Sel => {}
+                OneKind::Cmd | OneKind::SelOrphan | OneKind::Sel | OneKind::AbA | OneKind::AbB => {}
                 OneKind::Legacy => h.dropped_legacy += 1,
                 // the child is cancelled, which concludes it: the parent carries on
                 OneKind::Join => sat(&mut self.view.got),
@@ -350,9 +372,13 @@ impl Ref {
         let n = self.oneshots.len();
         let count = |k: OneKind| self.oneshots.iter().filter(|o| **o == k).count();
         let sel = (count(OneKind::Sel) > 0) as usize;
-        let one_exec = count(OneKind::Cmd) + count(OneKind::Legacy) + count(OneKind::Join) + sel;
-        let one_cmd = count(OneKind::Cmd) + 2 * count(OneKind::Join) + sel;
-        let one_tok = count(OneKind::Cmd) + count(OneKind::Legacy) + 2 * count(OneKind::Join) + sel;
+        let ab = count(OneKind::AbA) + count(OneKind::AbB);
+        let ab_cmd = (ab > 0) as usize;
+        let one_exec =
+            count(OneKind::Cmd) + count(OneKind::Legacy) + count(OneKind::Join) + sel + ab_cmd;
+        let one_cmd = count(OneKind::Cmd) + 2 * count(OneKind::Join) + sel + ab;
+        let one_tok =
+            count(OneKind::Cmd) + count(OneKind::Legacy) + 2 * count(OneKind::Join) + sel + ab;
         let lt_live = matches!(self.lt, LtP::Live | LtP::LiveCleared) as usize;
         let lt_req = lt_live + (self.lt == LtP::Orphan) as usize;
         let ct_reqs = match self.ct {
@@ -503,6 +529,7 @@ impl BridgeHost {
             Act::ReqL => self.event(CEvent::ReqL(Token::new())),
             Act::ReqJ => self.event(CEvent::ReqJ(Token::new())),
             Act::ReqS => self.event(CEvent::ReqS(Token::new())),
+            Act::ReqA => self.event(CEvent::ReqA(Token::new())),
             Act::Drop(_) => Err("the byte-level bridge cannot drop a request".into()),
             Act::Respond(k) => {
                 let id = self.oneshots.remove(k);
@@ -642,6 +669,7 @@ impl DirectHost {
             Act::ReqC => self.event(CEvent::ReqC(Token::new())),
             Act::ReqJ => self.event(CEvent::ReqJ(Token::new())),
             Act::ReqS => self.event(CEvent::ReqS(Token::new())),
+            Act::ReqA => self.event(CEvent::ReqA(Token::new())),
             Act::Drop(k) => {
                 drop(self.oneshots.remove(k));
                 // the next poll of the commands (the way a test calls effects()/events())
@@ -804,6 +832,7 @@ impl CoreHost {
             Act::ReqL => self.event(CEvent::ReqL(Token::new())),
             Act::ReqJ => self.event(CEvent::ReqJ(Token::new())),
             Act::ReqS => self.event(CEvent::ReqS(Token::new())),
+            Act::ReqA => self.event(CEvent::ReqA(Token::new())),
             Act::Respond(k) => {
                 let mut r = self.oneshots.remove(k);
                 self.resolve(&mut r, COut(7, Token::new()))
@@ -1344,7 +1373,7 @@ pub fn run(tier: Tier, args: &[String]) -> i32 {
         "hosts": [show(&bridge, "bincode Bridge over Core (derive(Effect), legacy capabilities available)"),
                   show(&core, "typed Core<CApp> (derive(Effect), legacy capabilities available); the harness holds the typed requests and can drop them"),
                   show(&direct, "harness-hosted Commands (#[effect] enum, Capabilities = ()); Command::verif_live_tasks readable")],
-        "action_alphabet": "ReqC (Command-API one-shot), ReqL (legacy one-shot), ReqJ (task: spawn(child awaiting a shell request); join_handle.await; event), ReqS (one task awaiting select over two shell requests), Respond(k) for every outstanding one-shot k (also the orphaned member of a finished select), Drop(k): the shell drops the k-th outstanding one-shot unresolved (Command-API requests on both hosts, legacy requests on the typed-Core host) (direct and typed-Core hosts; on the Core host followed by one no-op event = one further core call; the bridge cannot drop), Sub, Unsub (AbortHandle kept in the model), Item (stream item; also after unsubscribe and after the task ended), Render, CTimerSet / CTimerClear (TimerHandle) / CTimerFire (answer NotifyAfter, also the orphaned one) / CTimerCleared (answer Clear), LTimerSet / LTimerClear (also after the timer finished) / LTimerFire; after EVERY explored path the host is dropped",
+        "action_alphabet": "ReqC (Command-API one-shot), ReqL (legacy one-shot), ReqJ (task: spawn(child awaiting a shell request); join_handle.await; event), ReqS (one task awaiting select over two shell requests), ReqA (self-aborting command: task B request -> event, task A request -> the command's own AbortHandle, no output), Respond(k) for every outstanding one-shot k (also the orphaned member of a finished select), Drop(k): the shell drops the k-th outstanding one-shot unresolved (Command-API requests on both hosts, legacy requests on the typed-Core host) (direct and typed-Core hosts; on the Core host followed by one no-op event = one further core call; the bridge cannot drop), Sub, Unsub (AbortHandle kept in the model), Item (stream item; also after unsubscribe and after the task ended), Render, CTimerSet / CTimerClear (TimerHandle) / CTimerFire (answer NotifyAfter, also the orphaned one) / CTimerCleared (answer Clear), LTimerSet / LTimerClear (also after the timer finished) / LTimerFire; after EVERY explored path the host is dropped",
         "app_bounds": {"max_outstanding_one_shots": b.max_oneshots, "live_subscriptions": 1, "command_api_timers": 1, "legacy_timers": 1, "model_counters_saturate_at": b.sat},
         "state_key": "(reference: outstanding one-shots with their API in issue order, subscription phase, timer phases, expected view; gauges: registry once/many entries, executor task slots | live commands, sum of Command::verif_live_tasks, queued spawns/wake-ups/effects/events, cleared-timer-set size relative to the start of the path, live drop-tokens). Projected out because a listed finding makes them unbounded (each reported): `Never` registry entries (K3), cleared-set ids of timers cleared after they finished (K4), executor slots and tokens of legacy tasks whose request was dropped (accepted only when exactly one slot per dropped legacy request is stuck)",
         "oracle": "in every reachable state: registry once <= outstanding one-shot requests the shell holds, many <= subscriptions the shell has not been told are finished, never == 0; executor tasks / live commands / command tasks <= live pieces of work; cleared set <= cleared pending timers; live tokens <= tokens owned by live tasks (+ payloads of requests the harness holds); all queues empty after the call; after dropping the host 0 tokens; view == reference view; gauge BELOW the reference = reference error, reported under reference/*",
